@@ -1322,6 +1322,8 @@ func (s *ScopedKeyManager) extendAddresses(ns walletdb.ReadWriteBucket,
 			Account:         acctInfo.acctKeyPub.ChildIndex(),
 			Branch:          branchNum,
 			Index:           nextIndex - 1,
+
+			MasterKeyFingerprint: acctInfo.masterKeyFingerprint,
 		}
 
 		// Create a new managed address based on the public or private
